@@ -271,6 +271,11 @@ impl<K, V, const N: usize> Map<K, V, N> {
         exists|j: int| 0 <= j < self.len && (#[trigger] slot_of(self.pairs, j)).unwrap().1.eq_spec(&v) && self.first_match(&k, j)
     }
 
+    /// the key object `k` is stored in some live slot
+    pub open spec fn stores_key(&self, k: K) -> bool {
+        exists|i: int| 0 <= i < self.len && (#[trigger] slot_of(self.pairs, i)).unwrap().0 == k
+    }
+
     /// the keys of the live slots are pairwise unrelated by `rel` (in both orders)
     pub open spec fn distinct_by(&self, rel: spec_fn(K, K) -> bool) -> bool {
         forall|i: int, j: int| #![trigger slot_of(self.pairs, i), slot_of(self.pairs, j)]
